@@ -27,6 +27,12 @@ def _case(i):
         forced_stdin = rng.choice(gen.MULTILINE) if rng.random() < 0.8 else None
     elif i % 12 == 9:
         name, prog = 'tmpl:forward_jump', gen.tmpl_forward_jump(rng)
+    elif i % 24 == 15:
+        name, prog = 'tmpl:first_command_source', gen.tmpl_first_command_source(rng)
+    elif i % 24 == 3:
+        name, prog = 'tmpl:abandoned_return', gen.tmpl_abandoned_return(rng)
+        if rng.random() < 0.3:
+            prog = gen.epilogue(rng, prog)
     else:
         name, prog = gen.gen_case(rng, allow_input=True)
     stdin = gen.gen_stdin(rng)
@@ -54,8 +60,16 @@ def _case(i):
         if nonterm:
             return _nonterm(res, path, sb, text, stdin, ro, re_)
         feat = P.features(m, rend)
-        k, cause = P.prefix_model(prog)
+        k, cause, pinfo = P.prefix_model_info(prog)
         res['hist']['prestop:' + cause] = 1
+        if cause in ('io', 'budget'):
+            # what the speculation that was given up had already done: any of it must be invisible afterwards
+            if pinfo['jumps']:
+                feat.add('abandoned_speculation_jumped')
+            if pinfo['first_step_return'] and pinfo['latest_changed']:
+                feat.add('abandoned_return_then_other_jump')
+            if pinfo['labels_added']:
+                feat.add('abandoned_speculation_registered_labels')
         if cause != 'end' and k > 0:
             feat.add('partial_prefix')
         if cause == 'budget':
@@ -179,6 +193,7 @@ def main(tier, seed):
     minimum = {'evaluations': (evaluated, 300 if tier == 'quick' else 5000),
                'jump': (featc.get('jump', 0), 50), 'stdin': (featc.get('stdin', 0), 30),
                'rollback_budget': (featc.get('rollback_budget', 0), 3),
+               'abandoned_return_then_other_jump': (featc.get('abandoned_return_then_other_jump', 0), 20),
                'partial_prefix': (featc.get('partial_prefix', 0), 30),
                'stack0_used_as_data': (featc.get('stack0_used_as_data', 0), 30)}
     return rep.finish(cov, assumptions, t0, minimum)
